@@ -23,6 +23,9 @@ Two further scenario classes use the same clauses as a disjunction (raise + unto
                                     (save/post:C19.writes-exactly-the-serialised-bytes)
   key-file failure histories        malformed key file -> failed save/load -> repair/regenerate -> rotate, on one
                                     configuration: failed saves leave the destination untouched, the others load back
+  values outside a format's domain  control / non-XML characters, YAML look-alikes, odd keys and dynamic field names, non-string
+                                    keys, NaN/inf, huge ints, non-plain objects, deep nesting, in typed / untyped / dynamic
+                                    holders, every format, over a previous file: raise + untouched, or loads back equal
   document boundary sweep           text of every length 0..300 (all document lengths modulo 256), values beginning or
                                     ending with whitespace / control bytes, at the root and nested, every format:
                                     file == dumps, Config.load(file) and loads(file bytes) equal the saved one
@@ -60,19 +63,32 @@ _MISSING = ("<missing>",)
 
 
 def _leaf_eq(a, b):
+    """type-strict, NaN-aware structural equality; iterative, so nesting depth is not limited by the interpreter stack"""
     from cincoconfig.fields import DigestValue
-    if isinstance(a, DigestValue) or isinstance(b, DigestValue):
-        return (isinstance(a, DigestValue) and isinstance(b, DigestValue) and a.salt == b.salt
-                and a.digest == b.digest and a.algorithm is b.algorithm)
-    if type(a) is not type(b):
-        return False
-    if isinstance(a, float):
-        return (a != a and b != b) or (a == b and (a != 0 or str(a) == str(b)))
-    if isinstance(a, (list, tuple)):
-        return len(a) == len(b) and all(_leaf_eq(x, y) for x, y in zip(a, b))
-    if isinstance(a, dict):
-        return set(a) == set(b) and all(_leaf_eq(a[k], b[k]) for k in a)
-    return a == b
+    stack = [(a, b)]
+    while stack:
+        a, b = stack.pop()
+        if isinstance(a, DigestValue) or isinstance(b, DigestValue):
+            if not (isinstance(a, DigestValue) and isinstance(b, DigestValue) and a.salt == b.salt
+                    and a.digest == b.digest and a.algorithm is b.algorithm):
+                return False
+            continue
+        if type(a) is not type(b):
+            return False
+        if isinstance(a, float):
+            if not ((a != a and b != b) or (a == b and (a != 0 or str(a) == str(b)))):
+                return False
+        elif isinstance(a, (list, tuple)):
+            if len(a) != len(b):
+                return False
+            stack.extend(zip(a, b))
+        elif isinstance(a, dict):
+            if set(a) != set(b):
+                return False
+            stack.extend((a[k], b[k]) for k in a)
+        elif a != b:
+            return False
+    return True
 
 
 def _show(v):
@@ -82,7 +98,10 @@ def _show(v):
         return "<Config %s>" % ",".join(v._data)
     if isinstance(v, DigestValue):
         return "<Digest %s>" % str(v)[:24]
-    return repr(v)[:100]
+    try:
+        return repr(v)[:100]
+    except RecursionError:
+        return "<deeply nested %s>" % type(v).__name__
 
 
 def diff_value(field, a, b, path, out):
@@ -194,7 +213,7 @@ def build(kind, tmp, variant=1, boom=None, keyfile=None, bad_method=False, bad_v
         s.opts = cc.DictField()
 
         def populate(c):
-            c.name = ["first", "second <&> é"][variant]
+            c.name = ["first", "second <&> \u00e9"][variant]
             c.count = [7, 2 ** 40][variant]
             c.ratio = [0.5, -0.0][variant]
             c.flag = bool(variant)
@@ -258,7 +277,7 @@ def build(kind, tmp, variant=1, boom=None, keyfile=None, bad_method=False, bad_v
 
         def populate(c):
             c.user = ["u0", "u1"][variant]
-            c.password = ["hunter2", "päss wörd " * 5][variant]
+            c.password = ["hunter2", "p\u00e4ss w\u00f6rd " * 5][variant]
             c.t.token = ["tok0", "tok1"][variant]
             a = item()
             a.name = "acc"
@@ -441,7 +460,7 @@ def mutate(cfg, spec):
 # One evaluation
 # ---------------------------------------------------------------------------------------------------------------
 
-MAX_VIOLATIONS_PER_OBLIGATION = 40
+MAX_VIOLATIONS_PER_OBLIGATION = 150
 PRIORS = ["previous-save", "garbage-longer", "empty-file", "absent"]
 WRITE_FLAGS = set("wax+")
 
@@ -983,7 +1002,6 @@ SWEEP_SIZES = range(0, 301)
 EDGE_STRINGS = {"leading-space": " x", "trailing-space": "x ", "space-only": " ", "newline": "\n", "newline-both-ends": "\nx\n",
                 "tabs": "\t\t", "crlf": "\r\n", "vertical-tab": "\x0b", "form-feed": "\x0c", "nul": "\x00",
                 "nul-both-ends": "\x00x\x00"}
-NOT_IN_XML = {"crlf", "vertical-tab", "form-feed", "nul", "nul-both-ends"}  # XML: XML characters without carriage return
 _WS = b" \t\n\r\x0b\x0c"
 _SWEEP_SCHEMAS = {}
 
@@ -1015,9 +1033,7 @@ def sweep_cases():
         for place in ("root", "nested"):
             for n in SWEEP_SIZES:
                 yield {"sweep": "size", "fmt": fmt, "place": place, "n": n}
-            for kind in EDGE_STRINGS:
-                if fmt == "xml" and kind in NOT_IN_XML:
-                    continue
+            for kind in EDGE_STRINGS:  # no format is exempted: the clause is a disjunction (raise + untouched | loads back)
                 yield {"sweep": "edge", "fmt": fmt, "place": place, "edge": kind}
             for b in range(256):
                 yield {"sweep": "edge", "fmt": fmt, "place": place, "edge": "bytes:%d" % b}
@@ -1306,6 +1322,122 @@ def evaluate_keyfile_failure_history(tmp, case):
 
 
 # ---------------------------------------------------------------------------------------------------------------
+# Values outside a format's domain (or only lossily representable), over an existing previous file: the save raises
+# and leaves the destination byte-identical, or it succeeds and load() parses the file into an equal configuration.
+# Every kind is run against every format: nothing is scoped out beforehand.
+# ---------------------------------------------------------------------------------------------------------------
+
+
+def _deep(n, kind):
+    v = "leaf"
+    for _ in range(n):
+        v = [v] if kind == "list" else {"k": v}
+    return v
+
+
+def outside_domain_kinds():
+    """kind -> (category, () -> value); categories decide which holders apply"""
+    nan, inf = float("nan"), float("inf")
+    kinds = {}
+    for label, text in (("ansi-escape", "\x1b[0m"), ("nul", "a\x00b"), ("backspace", "\x08"), ("vertical-tab", "a\x0bb"),
+                        ("form-feed", "\x0c"), ("noncharacter-fffe", "a\ufffe"), ("lone-surrogate", "a\ud800b"),
+                        ("carriage-return", "a\rb"), ("crlf", "a\r\nb"), ("del-7f", "\x7f"), ("c1-control-85", "a\x85b"),
+                        ("looks-like-bool", "yes"), ("looks-like-null", "null"), ("looks-like-float", "1e3"),
+                        ("looks-like-octal", "0o7"), ("looks-like-tilde-null", "~"), ("looks-like-date", "2021-01-01"),
+                        ("looks-like-sexagesimal", "1:30"), ("looks-like-merge", "<<"), ("leading-bang", "!tag x"),
+                        ("leading-ampersand", "&anchor x"), ("leading-star", "*alias"), ("colon-space", "a: b"),
+                        ("space-hash", "a #b"), ("cdata-end", "]]>"), ("markup", "<a>&amp;</a>")):
+        kinds["string:" + label] = ("string", (lambda text=text: text))
+    for label, key in (("with-space", "max size"), ("leading-digit", "1st"), ("with-lt", "a<b"), ("empty", ""), ("xml", "xml"),
+                       ("with-colon", "a:b"), ("like-root-tag", "config"), ("named-item", "item"), ("with-dot", "a.b"),
+                       ("leading-dollar", "$set"), ("with-nul", "a\x00b"), ("colon-space", "a: b"), ("space-hash", "a #b"),
+                       ("leading-bang", "!tag"), ("leading-ampersand", "&anchor"), ("leading-star", "*alias"),
+                       ("leading-dash", "- item"), ("question", "? q"), ("looks-like-bool", "yes"), ("looks-like-null", "null"),
+                       ("looks-like-int", "1"), ("type", "type")):
+        kinds["key:" + label] = ("key", (lambda key=key: key))
+    for label, key in (("int", 1), ("none", None), ("tuple", (1, 2)), ("float", 1.5), ("bool", True), ("bytes", b"k")):
+        kinds["non-str-key:" + label] = ("non-str-key", (lambda key=key: key))
+    for label, num in (("nan", nan), ("inf", inf), ("-inf", -inf), ("-0.0", -0.0)):
+        kinds["float:" + label] = ("float", (lambda num=num: num))
+    for label, num in (("2^63", 2 ** 63), ("2^64", 2 ** 64), ("-2^63-1", -2 ** 63 - 1), ("2^70", 2 ** 70), ("10^400", 10 ** 400)):
+        kinds["int:" + label] = ("int", (lambda num=num: num))
+    kinds["bytes"] = ("any", lambda: b"\xff\x00raw")
+    kinds["set"] = ("any", lambda: {1, 2})
+    kinds["tuple"] = ("any", lambda: (1, "a"))
+    kinds["custom-object"] = ("any", lambda: Custom([1, "x"]))
+    kinds["function"] = ("any", lambda: (lambda: 1))
+    for n in (100, 900):
+        kinds["nested-lists-depth-%d" % n] = ("deep", (lambda n=n: _deep(n, "list")))
+        kinds["nested-maps-depth-%d" % n] = ("deep", (lambda n=n: _deep(n, "dict")))
+    return kinds
+
+
+OUTSIDE_HOLDERS = {
+    "string": ["string-field", "any-field", "untyped-list", "untyped-dict-value", "dynamic-field-value"],
+    "key": ["untyped-dict-key", "any-field-map-key", "map-in-list-key", "dynamic-field-name"],
+    "non-str-key": ["untyped-dict-key", "any-field-map-key", "map-in-list-key"],
+    "float": ["float-field", "any-field", "untyped-list", "untyped-dict-value", "dynamic-field-value"],
+    "int": ["int-field", "any-field", "untyped-list", "untyped-dict-value", "dynamic-field-value"],
+    "any": ["any-field", "untyped-list", "untyped-dict-value", "dynamic-field-value"],
+    "deep": ["any-field", "untyped-dict-value"],
+}
+
+
+def build_outside(holder, value):
+    import cincoconfig as cc
+    s = cc.Schema(dynamic=holder.startswith("dynamic"))
+    s.name = cc.StringField(default="n")
+    s.ratio = cc.FloatField()
+    s.count = cc.IntField()
+    s.any = cc.AnyField()
+    s.items = cc.ListField()
+    s.opts = cc.DictField()
+    c = s()
+    if holder == "string-field":
+        c.name = value
+    elif holder == "float-field":
+        c.ratio = value
+    elif holder == "int-field":
+        c.count = value
+    elif holder == "any-field":
+        c.any = value
+    elif holder == "untyped-list":
+        c.items = ["first", value]
+    elif holder == "untyped-dict-value":
+        c.opts = {"k": value}
+    elif holder == "dynamic-field-value":
+        c.extra = value
+    elif holder == "untyped-dict-key":
+        c.opts = {value: 1, "other": 2}
+    elif holder == "any-field-map-key":
+        c.any = {value: "x"}
+    elif holder == "map-in-list-key":
+        c.items = [{value: None}]
+    elif holder == "dynamic-field-name":
+        setattr(c, value, 1)  # Config.__setattr__: a new field of a dynamic configuration
+    else:
+        raise ValueError(holder)
+    return c, s()
+
+
+def evaluate_outside(tmp, case):
+    import warnings
+    fmt = case["fmt"]
+    category, make = outside_domain_kinds()[case["outside"]]
+    dest = os.path.join(tmp, "out", "outside." + fmt)
+    set_prior(dest, "previous-save", "flat", fmt, tmp)
+    cfg, fresh = build_outside(case["holder"], make())
+    before = read_state(dest)
+    with warnings.catch_warnings():
+        warnings.simplefilter("ignore")
+        res = run_save(cfg, dest, fmt, {}, None)
+        out = _judge_saved_or_untouched(res, cfg, fresh, dest, fmt, before, "with %s in %s" % (case["outside"], case["holder"]))
+    out["input"] = "%s = %s" % (case["holder"], _show(make()))
+    out["failures"] = [(ob, "%s [input: %s]" % (what, out["input"])) for ob, what in out["failures"]]
+    return out
+
+
+# ---------------------------------------------------------------------------------------------------------------
 # Enumeration
 # ---------------------------------------------------------------------------------------------------------------
 
@@ -1369,6 +1501,11 @@ def cases(tier, rng):
         for method in ("xor", "aes"):
             for fmt in FORMATS:
                 yield {"keyfile_failure_history": True, "steps": steps, "method": method, "fmt": fmt}
+    # values outside the formats' domains: every kind x applicable holder x format
+    for kind, (category, _make) in outside_domain_kinds().items():
+        for holder in OUTSIDE_HOLDERS[category]:
+            for fmt in FORMATS:
+                yield {"outside": kind, "holder": holder, "fmt": fmt}
     # document boundary sweep
     yield from sweep_cases()
     if tier != "quick":
@@ -1402,6 +1539,8 @@ def witness_base(case, obligation):
 
 
 def dispatch(tmp, case):
+    if case.get("outside"):
+        return evaluate_outside(tmp, case)
     if case.get("dest_kind"):
         return evaluate_destination(tmp, case)
     if case.get("keyfile_failure_history"):
@@ -1440,7 +1579,8 @@ def rac(tier: str, seed: int) -> dict:
              "format x formatter options x previous content for successful saves, every applicable (fault, kind, "
              "format, previous content) for failing ones, all 27 ok0/ok1/fault histories per format, every key-file "
              "history x format, every (un-encodable value kind, holder, format, previous content), every destination "
-             "name kind x format, every key-file failure history x xor/aes x format, the document "
+             "name kind x format, every key-file failure history x xor/aes x format, every (outside-domain kind, "
+             "applicable holder, format), the document "
              "boundary sweep (format x root/nested x text length 0..300, x edge strings, x 256 edge bytes); a fault case is "
              "non-trivial when the save really failed before serialisation returned; witness classes: fault/previous "
              "content, key-file history name, un-encodable value kind, suffixed @format unless all five formats fail",
@@ -1462,9 +1602,12 @@ def rac(tier: str, seed: int) -> dict:
               "$HOME/..., bare $ and %%, ~/..., ./, a/../, spaces, trailing dot, upper-case extension) with STAGE and HOME "
               "set and a decoy under the variable-expanded name; %d key-file failure histories of 3-6 steps (malformed "
               "31/33/0-byte key file before a save or a load, repair, regeneration, rotation; root or sub-configuration "
-              "key file) on one configuration; os.urandom replaced by a seeded stream for the duration of the run"
+              "key file) on one configuration; %d outside-domain kinds (control/non-XML/surrogate characters, strings "
+              "that look like other YAML types, odd map keys and dynamic field names, non-string keys, NaN/inf, ints "
+              "beyond 64 bit, bytes/set/tuple/object/function, nesting depth 100 and 900) x 2-5 holders (typed fields, "
+              "AnyField, untyped list/dict, dynamic fields) x 5 formats; os.urandom replaced by a seeded stream for the duration of the run"
               % (len(FAULTS), len(keyfile_histories()), len(unencodable_values()), len(HOLDERS), len(DEST_NAMES),
-                 len(KEYFILE_FAILURE_HISTORIES)),
+                 len(KEYFILE_FAILURE_HISTORIES), len(outside_domain_kinds())),
         tier=tier, seed=seed)
     pending = {}  # (obligation, base key) -> {fmt: (what, replay)}
     with sandbox() as tmp, mock.patch.object(os, "urandom", _DetRandom(seed)):
@@ -1485,7 +1628,10 @@ def rac(tier: str, seed: int) -> dict:
                 nontrivial = True
             elif case.get("sweep"):
                 key = ("sweep", case["fmt"], case["place"], case.get("n"), case.get("edge"))
-                nontrivial = res["outcome"] == "saved"
+                nontrivial = res["outcome"] in ("saved", "serialisation-failed")
+            elif case.get("outside"):
+                key = ("outside-domain", case["outside"], case["holder"], case["fmt"])
+                nontrivial = True
             elif case.get("dest_kind"):
                 key = ("destination-name", case["dest_kind"], case["fmt"])
                 nontrivial = res["outcome"] == "saved"
@@ -1505,6 +1651,9 @@ def rac(tier: str, seed: int) -> dict:
             for ob, what in res["failures"]:
                 if case.get("sweep"):  # these witness classes name their format themselves
                     pending.setdefault((ob, res["witness"]), {}).setdefault(None, (what, dict(case)))
+                elif case.get("outside"):
+                    pending.setdefault((ob, "outside-domain:%s:%s" % (case["fmt"], case["outside"])), {}) \
+                        .setdefault(None, (what, dict(case)))
                 else:
                     pending.setdefault((ob, witness_base(case, ob)), {}).setdefault(case["fmt"], (what, dict(case)))
     for (ob, base), per_fmt in pending.items():
@@ -1537,6 +1686,9 @@ def replay(case: dict) -> dict:
                     "fresh configuration naming the same key files loads the file back equal")
     elif case.get("unencodable"):
         expected = "the save raises and leaves the destination untouched, or succeeds and the file loads back equal"
+    elif case.get("outside"):
+        expected = ("the save raises and leaves the previous file byte-identical, or succeeds and load() parses the file "
+                    "into an equal configuration")
     elif case.get("dest_kind"):
         expected = "the bytes are in the file the name denotes after ~ expansion only, nothing else changes, load(name) is equal"
     elif case.get("keyfile_failure_history"):
